@@ -242,6 +242,34 @@ theorem shipped_versions_nonempty : VersNonEmpty [⟨Generated.RunnerHeader.vers
 
 example : Generated.RunnerHeader.versionsApp = ['1', '.', '0', '.', '0'] := by decide
 
+/-! ## the output path is absolute -/
+
+/-- **`output_filepath` answers with an absolute path** whenever the working directory is absolute (it always is: `os.getcwd()`):
+    for every configuration and module path. The existence check, the header read-back (the source loader resolves RELATIVE
+    paths against the working directory, then the tranp root, then its library directory) and the Writer therefore mean one
+    and the same file; a relative answer would let a same-named file under the tranp root stand in for a missing output. -/
+theorem output_path_absolute (cfg : Cfg) (m p : Str) (hcwd : Str.startsWith cfg.cwd ['/'] = true)
+    (h : outputFilepath cfg m = .ok p) : Str.startsWith p ['/'] = true := by
+  unfold outputFilepath at h
+  split at h
+  · cases h
+  · rename_i q _
+    cases h
+    unfold abspath
+    apply normpath_absolute
+    split
+    · assumption
+    · rename_i hq
+      obtain ⟨t, ht⟩ := (startsWith_slash_iff _).mp hcwd
+      unfold osJoin
+      simp only [hq, Bool.false_eq_true, ↓reduceIte]
+      split
+      · rw [ht]; simp [Str.startsWith]
+      · rw [ht]; simp [Str.startsWith]
+
+example : outputFilepath ⟨[['a', 'p', 'p', '/', ':', 'o', 'u', 't'], ['.', '/']], ['h'], none, ['/', 'w']⟩ ['a', 'p', 'p', '.', 'x'] = .ok ['/', 'w', '/', 'o', 'u', 't', '/', 'x', '.', 'h'] := by
+  decide +kernel
+
 /-! ## `-f` -/
 
 /-- The command-line flag forces regeneration whatever the config file says (`args.force or config.get('force', False)`):
